@@ -7,6 +7,7 @@ import (
 	"sort"
 	"strings"
 	"sync"
+	"sync/atomic"
 
 	"github.com/pinealctx/neptune/ds/tree"
 	"github.com/pinealctx/neptune/ds/tree/btree"
@@ -949,4 +950,111 @@ func genCloneFullRoot(r *rand.Rand, deg int) vh.Case {
 	coq, ds := join(steps)
 	return vh.Case{Coq: "(CaseC " + fmt.Sprint(deg) + "%nat " + coq + ")%Z", Nontrivial: true,
 		Desc: map[string]interface{}{"kind": "clone program, clone taken with a full root", "degree": deg, "inner_root": inner, "steps": ds}}
+}
+
+// ---------------------------------------------------------------- one writer moving an entry, concurrent readers
+
+// the writer moves one entry back and forth between two keys with Update over a fixed set of other entries; the readers
+// scan and Get concurrently.  Update is one critical section, so whatever the interleaving every read must return
+// what one of the two states (entry at mv, entry at mv') returns.  The readers' distinct (operation, result) pairs
+// are the observations (a correct wrapper produces two results per operation at most).
+func genMover(r *rand.Rand, readers int, moves int) vh.Case {
+	t := tree.NewBTree()
+	nfixed := 8 + r.Intn(14)
+	u := nfixed + 6
+	fixed := []kv{}
+	used := map[int]bool{}
+	for len(fixed) < nfixed {
+		k := 2 * r.Intn(u)
+		if used[k] {
+			continue
+		}
+		used[k] = true
+		x := kv{k, 100 + len(fixed)}
+		fixed = append(fixed, x)
+		t.Insert(x)
+	}
+	free := []int{}
+	for k := 0; k < 2*u; k += 2 {
+		if !used[k] {
+			free = append(free, k)
+		}
+	}
+	r.Shuffle(len(free), func(i, j int) { free[i], free[j] = free[j], free[i] })
+	mv, mv2 := kv{free[0], 7}, kv{free[1], 7}
+	t.Insert(mv)
+	// the reader operations: full and partial scans in all four flavours, Get on both keys
+	ops := []wop{{kind: "get", k: mv.k}, {kind: "get", k: mv2.k}}
+	for w := 0; w < 4; w++ {
+		p := -2
+		if w >= 2 {
+			p = 2*u + 1
+		}
+		ops = append(ops, wop{kind: "scan", w: w, k: p, f: filt{kind: "all"}, n: 1000})
+		ops = append(ops, wop{kind: "scan", w: w, k: anyPivot(r, u), f: filt{kind: "all"}, n: 1 + r.Intn(nfixed)})
+	}
+	type seenT struct {
+		o   wop
+		res obs
+	}
+	seen := make([]map[string]seenT, readers)
+	var done int32
+	var wg sync.WaitGroup
+	start := make(chan struct{})
+	falses := 0
+	wg.Add(1)
+	go func() {
+		defer wg.Done()
+		<-start
+		for i := 0; i < moves; i++ {
+			if !t.Update(kv{mv.k, 0}, mv2) {
+				falses++
+			}
+			if !t.Update(kv{mv2.k, 0}, mv) {
+				falses++
+			}
+		}
+		atomic.StoreInt32(&done, 1)
+	}()
+	for g := 0; g < readers; g++ {
+		g := g
+		seen[g] = map[string]seenT{}
+		rg := rand.New(rand.NewSource(r.Int63()))
+		wg.Add(1)
+		go func() {
+			defer wg.Done()
+			<-start
+			for n := 0; atomic.LoadInt32(&done) == 0 || n < 50; n++ {
+				o := ops[rg.Intn(len(ops))]
+				res := applyW(t, o)
+				key := o.coq() + "=" + res.coq()
+				if _, ok := seen[g][key]; !ok && len(seen[g]) < 40 {
+					seen[g][key] = seenT{o, res}
+				}
+			}
+		}()
+	}
+	close(start)
+	wg.Wait()
+	all := map[string]seenT{}
+	for g := range seen {
+		for k, v := range seen[g] {
+			all[k] = v
+		}
+	}
+	keys := make([]string, 0, len(all))
+	for k := range all {
+		keys = append(keys, k)
+	}
+	sort.Strings(keys)
+	cs := make([]string, len(keys))
+	ds := make([]string, len(keys))
+	for i, k := range keys {
+		cs[i] = "(" + all[k].o.coq() + ", " + all[k].res.coq() + ")"
+		ds[i] = all[k].o.String() + " = " + all[k].res.String()
+	}
+	return vh.Case{Coq: fmt.Sprintf("(CaseM %s %s %s %d [%s])%%Z", coqItems(fixed), coqItem(mv), coqItem(mv2), falses, strings.Join(cs, ";\n ")),
+		Nontrivial: true, Key: fmt.Sprintf("mover %v %v %v %v", fixed, mv, mv2, keys),
+		Desc: map[string]interface{}{"kind": "one writer moving an entry with Update, concurrent readers", "fixed": itemsStr(fixed),
+			"moving": fmt.Sprintf("%d <-> %d", mv.k, mv2.k), "moves": 2 * moves, "readers": readers, "update_false": falses, "distinct_observations": ds}}
 }
